@@ -21,3 +21,5 @@ import Postcard.Props.EndToEnd
 #print axioms Postcard.decVariant_skip
 #print axioms Postcard.roundtrip_enumAt
 #print axioms Postcard.decEnumAt_eq_dec
+#print axioms Postcard.decEnumAt_ok_iff
+#print axioms Postcard.decEnumAt_total
